@@ -274,9 +274,11 @@ class ThreadedMailboxProcessor(BaseProcessor):
         if exc is not None:
             if isinstance(exc, GeneratorExit):
                 print("Main generator exited irregularly?!")
-                reason[2] = (
+                reason = (
+                    reason[0],
+                    reason[1],
                     "Hm, interesting. Most likely an exception was thrown "
-                    "outside strax, but we did not handle it properly."
+                    "outside strax, but we did not handle it properly.",
                 )
 
             # Kill the mailboxes
